@@ -230,6 +230,7 @@ func checkC07(w *World, r *Report) {
 	checkEscapeNeverRebound(w, r, escapeFn)
 	checkApplyWritesFilterResult(w, r)
 	checkStringifyIdentityOnStrings(w, r)
+	checkInterpolatorSeesOnlySource(w, r)
 }
 
 func objName(o types.Object) string {
@@ -877,4 +878,116 @@ func checkStringifyIdentityOnStrings(w *World, r *Report) {
 		})
 	}
 	r.floor("stringifiers with a string case", n, 1)
+}
+
+// checkInterpolatorSeesOnlySource — R07.10: text that was rendered is never read as a template.
+// The helper that resolves `{{ name }}` references inside a string (renderVariableString: the
+// function the macro call hands literal text nodes to) is only ever given the content field of a
+// TextNode — template source.  Given rendered output, it interprets data: a value that was
+// escaped and happens to contain {{ … }} is interpolated a second time, and the raw argument is
+// spliced into the output behind the escape filter's back.
+func checkInterpolatorSeesOnlySource(w *World, r *Report) {
+	// the interpolators: package functions (string, *RenderContext, io.Writer) called with
+	// TextNode.content somewhere
+	interp := map[*ssa.Function]bool{}
+	for _, fn := range w.pkgFuncs() {
+		instrsOf(fn, func(in ssa.Instruction) {
+			c, ok := in.(*ssa.Call)
+			if !ok {
+				return
+			}
+			g := c.Call.StaticCallee()
+			if g == nil || !isTwigFn(g) || len(c.Call.Args) < 2 {
+				return
+			}
+			takesCtx, takesW := false, false
+			for _, a := range c.Call.Args {
+				if isNamed(deref(a.Type()), twigPath, "RenderContext") {
+					takesCtx = true
+				}
+				if isNamed(a.Type(), "io", "Writer") {
+					takesW = true
+				}
+			}
+			if !takesCtx || !takesW || g.Signature.Recv() != nil {
+				return
+			}
+			for _, a := range c.Call.Args {
+				if isString(a.Type()) {
+					if t, f := originField(a, 0); t == "TextNode" && f == "content" {
+						interp[g] = true
+					}
+				}
+			}
+		})
+	}
+	// … and by what they do: a function taking (string, *RenderContext, io.Writer) that looks
+	// for the print delimiters in its string and asks the context for values
+	for _, g := range w.pkgFuncs() {
+		if interp[g] || g.Signature.Recv() != nil || len(g.Params) < 3 {
+			continue
+		}
+		hasStr, hasCtx, hasW := false, false, false
+		for _, p := range g.Params {
+			switch {
+			case isString(p.Type()):
+				hasStr = true
+			case isNamed(deref(p.Type()), twigPath, "RenderContext"):
+				hasCtx = true
+			case isNamed(p.Type(), "io", "Writer"):
+				hasW = true
+			}
+		}
+		if !hasStr || !hasCtx || !hasW {
+			continue
+		}
+		looksForDelims, asksCtx := false, false
+		instrsOf(g, func(in ssa.Instruction) {
+			c, ok := in.(*ssa.Call)
+			if !ok {
+				return
+			}
+			if f := calleeFunc(c); f != nil && f.Pkg() != nil && f.Pkg().Path() == "strings" {
+				for _, a := range c.Call.Args {
+					if k, ok := constString(a); ok && (k == "{{" || k == "}}") {
+						looksForDelims = true
+					}
+				}
+			}
+			if f := calleeFunc(c); f != nil {
+				if sig, ok := f.Type().(*types.Signature); ok && sig.Recv() != nil && isNamed(deref(sig.Recv().Type()), twigPath, "RenderContext") {
+					asksCtx = true
+				}
+			}
+		})
+		if looksForDelims && asksCtx {
+			interp[g] = true
+		}
+	}
+	n := 0
+	for _, fn := range w.pkgFuncs() {
+		instrsOf(fn, func(in ssa.Instruction) {
+			c, ok := in.(*ssa.Call)
+			if !ok {
+				return
+			}
+			g := c.Call.StaticCallee()
+			if g == nil || !interp[g] || fn == g {
+				return
+			}
+			for _, a := range c.Call.Args {
+				if !isString(a.Type()) {
+					continue
+				}
+				n++
+				construct := "text handed to the interpolator " + g.Name()
+				if t, f := originField(a, 0); t == "TextNode" && f == "content" {
+					r.ok("R07.10", ssaName(fn), construct, w.posOf(in.Pos()), "the content of a text node", true)
+				} else {
+					r.bad("R07.10", ssaName(fn), construct, w.posOf(in.Pos()), "the string whose {{ … }} references are resolved here is not the content of a text node of the template (it is computed: rendered output, a buffer's text): values that were printed — and escaped — are scanned for references again, so data is evaluated as template text and raw arguments reach the output unescaped")
+				}
+			}
+		})
+	}
+	r.Counts["calls of the in-text interpolator"] = n
 }
